@@ -538,7 +538,28 @@ def every_member_is_asked(ctx: Ctx, rep: Report, rid: str = "R13.10") -> None:
                 what = "raises inside the loop" if raises else f"asks `{snippet(asks[0], 30)}` outside a try"
                 rep.violation(f.qualname, f"for {var} in {snippet(lp.iter, 20)}: {snippet(bad[0], 50)}", f"the loop over the members can answer True and {what}: a member that cannot be asked (TypeError) standing BEFORE the member that contains the address hides the positive answer - the result depends on the order of the members", where(f, bad[0]), inp="AddressAg('host 10.0.0.1') in AddrGroup(items=['20.0.0.0 0.0.3.3', '10.0.0.0/8'], platform='nxos')  # TypeError; with the members swapped: True")
             else:
-                rep.ok(f"{f.qualname}: for {var} in {snippet(lp.iter, 20)}", "every member is asked before an error about one of them may leave", where=where(f, lp))
+                # ... and an error that was caught is not turned into "no": after the loop it is raised whenever ANY member
+                # could not be asked (a member that refuses the question may be the one that contains the address)
+                caught = set()
+                for y in body_nodes:
+                    if isinstance(y, ast.ExceptHandler):
+                        for z in [w for b in y.body for w in ast.walk(b)]:
+                            if isinstance(z, ast.Assign) and isinstance(z.targets[0], ast.Name):
+                                caught.add(z.targets[0].id)
+                            if isinstance(z, ast.Call) and isinstance(z.func, ast.Attribute) and z.func.attr in ("append", "add") and isinstance(z.func.value, ast.Name):
+                                caught.add(z.func.value.id)
+                after = []
+                seen_lp = False
+                for st in own_nodes(f.node):
+                    if st is lp:
+                        seen_lp = True
+                    elif seen_lp and isinstance(st, ast.If) and getattr(st, "lineno", 0) > getattr(lp, "end_lineno", 0) and any(isinstance(r, ast.Raise) for r in st.body):
+                        after.append(st)
+                weak = [st for st in after if caught and any(isinstance(z, ast.Name) and z.id in caught for z in ast.walk(st.test)) and not (isinstance(st.test, ast.Name) or (isinstance(st.test, ast.UnaryOp)))]
+                if caught and weak:
+                    rep.violation(f.qualname, f"if {snippet(weak[0].test, 50)}: raise", "the error of a member that could not be asked is raised only under a further condition (all members refused): with one askable member the answer is a definite False although the member that refused may contain the address - 'in' answers no for an address that is in the group", where(f, weak[0]), inp="AddressAg('10.0.1.1/32') in AddrGroup(items=['10.0.0.0 0.0.3.3', '20.0.0.0/24'], platform='nxos')  -> False (should raise TypeError, as for the one-member group)")
+                else:
+                    rep.ok(f"{f.qualname}: for {var} in {snippet(lp.iter, 20)}", "every member is asked before an error about one of them may leave", where=where(f, lp))
     if n == 0:
         rep.note(f"{rid} no member loop with a positive exit in the containment operators - not judged")
 
@@ -574,6 +595,10 @@ def run(ctx: Ctx, rep: Report, tier: str) -> None:
     from .c05 import memo_not_handed_out
 
     memo_not_handed_out(ctx, rep, rid="R13.11")
+    # R13.12 a refused line leaves the address (its kind, its group name, its networks) as it was (C05 R05.17)
+    from .c05 import rejected_address_changes_nothing
+
+    rejected_address_changes_nothing(ctx, rep, rid="R13.12")
     # R13.5 the network list of a group is complete (C05 R05.12)
     from .c05 import expansion_covers_members
 
